@@ -248,6 +248,7 @@ class FreshSem(Semantics):
 
     def _assign(self, state: frozenset, name: str) -> set:
         return {f for f in state if not (f[0] == "getvar" and f[1] == name) and not (f[0] == "popped" and f[1] == name)
+                and not (f[0] == "unregflag" and f[1] == name) and not (f[0] in ("isnone", "notnone") and f[1] == name)
                 and not (f[0] == "fresh" and (f[1] == name or f[1].startswith(name + ".") or f[1].startswith(name + "[")))}
 
     def simple(self, state, st):
@@ -267,6 +268,16 @@ class FreshSem(Semantics):
                 elif isinstance(v, ast.IfExp) and isinstance(v.test, ast.Call) and dotted(v.test.func) == "_unregister" and is_none(v.orelse) \
                         and norm(v.body) == norm(v.test.args[0]):
                     s.add(("popped", tg.id))
+                elif isinstance(v, ast.Call) and dotted(v.func) == "_unregister" and v.args:
+                    s.add(("unregflag", tg.id, norm(v.args[0])))
+                elif is_none(v):
+                    s.add(("isnone", tg.id))
+                elif isinstance(v, ast.Name):
+                    s.add(("notnone", tg.id)) if v.id == "self" else None
+                    # V = X : keys spelled through V are keys of X
+                    for fct in list(state):
+                        if fct[0] == "fresh" and fct[1] == f"{v.id}.id":
+                            s.add(("fresh", f"{tg.id}.id"))
             elif isinstance(tg, ast.Subscript) and dotted(tg.value) == REG:
                 k = norm(tg.slice)
                 self.stores.append((st, k, ("fresh", k) in state, sorted(map(str, state))))
@@ -286,9 +297,26 @@ class FreshSem(Semantics):
             self._refine(c, pol, t, state)
         for c, pol in _conjuncts(test, False):
             self._refine(c, pol, f, state)
+        # prune branches that contradict what is known about the None-ness of a local
+        tt, pol = test, True
+        while isinstance(tt, ast.UnaryOp) and isinstance(tt.op, ast.Not):
+            tt, pol = tt.operand, not pol
+        if isinstance(tt, ast.Compare) and len(tt.ops) == 1 and isinstance(tt.ops[0], (ast.Is, ast.IsNot)) and is_none(tt.comparators[0]) \
+                and isinstance(tt.left, ast.Name):
+            none_when_true = isinstance(tt.ops[0], ast.Is) == pol
+            if ("isnone", tt.left.id) in state:
+                return ((frozenset(t),), ()) if none_when_true else ((), (frozenset(f),))
+            if ("notnone", tt.left.id) in state:
+                return ((), (frozenset(f),)) if none_when_true else ((frozenset(t),), ())
         return (frozenset(t),), (frozenset(f),)
 
     def _refine(self, c: ast.expr, pol: bool, out: set, state: frozenset) -> None:
+        if isinstance(c, ast.Call) and dotted(c.func) == "_unregister" and c.args and pol:
+            out.add(("fresh", f"{norm(c.args[0])}.id"))  # it returned True: the entry of X was removed just now
+        if isinstance(c, ast.Name):
+            for fct in state:
+                if fct[0] == "unregflag" and fct[1] == c.id and pol:
+                    out.add(("fresh", f"{fct[2]}.id"))
         if isinstance(c, ast.Compare) and len(c.ops) == 1:
             op, l, r = c.ops[0], c.left, c.comparators[0]
             if isinstance(op, (ast.In, ast.NotIn)) and dotted(r) == REG:
@@ -361,89 +389,117 @@ def r_reg_fresh(ck: Checker) -> None:
 
 
 class PairSem(Semantics):
-    """replace(): state = (registry state of the original, restored?) with registry state in clean / dirty / ('cond', var)."""
+    """replace(): state = (original unregistered?, restored?, facts) — facts are (key, bool) pairs about flags / None-ness
+    of locals, so that a guarded unregister is matched with its equally guarded restore."""
 
     def __init__(self, x: str = "self") -> None:
         self.x = x
         self.saw_remove = False
         self.saw_restore = False
 
+    @staticmethod
+    def _kill(facts: frozenset, names: set[str]) -> set:
+        return {(k, v) for k, v in facts if not any(k == n or k == k_none(n) or k == f"alias:{n}" for n in names)}
+
+    def _is_unreg(self, e: ast.AST) -> bool:
+        return isinstance(e, ast.Call) and dotted(e.func) == "_unregister" and bool(e.args) and norm(e.args[0]) == self.x
+
+    def _is_pop(self, e: ast.AST) -> ast.Call | None:
+        if isinstance(e, ast.Call) and isinstance(e.func, ast.Attribute) and dotted(e.func.value) == REG and e.func.attr == "pop" \
+                and e.args and norm(e.args[0]) == f"{self.x}.id":
+            return e
+        return None
+
     def simple(self, state, st):
-        reg, restored = state
+        dirty, restored, facts = state
+        names = {n.id for n in walk_local(st) if isinstance(n, ast.Name) and isinstance(n.ctx, ast.Store)}
+        f2 = self._kill(facts, names)
+        out = []
         if isinstance(st, (ast.Assign, ast.AnnAssign)) and st.value is not None:
             tg = st.targets[0] if isinstance(st, ast.Assign) else st.target
             v = st.value
             if isinstance(tg, ast.Name):
-                if isinstance(v, ast.IfExp) and isinstance(v.test, ast.Call) and dotted(v.test.func) == "_unregister" \
-                        and norm(v.test.args[0]) == self.x and norm(v.body) == self.x and is_none(v.orelse):
+                if self._is_unreg(v):
                     self.saw_remove = True
-                    return (((("cond", tg.id)), restored),)
-                if isinstance(v, ast.Call) and isinstance(v.func, ast.Attribute) and dotted(v.func.value) == REG and v.func.attr == "pop" \
-                        and v.args and norm(v.args[0]) == f"{self.x}.id":
+                    return ((True, restored, frozenset(f2 | {(tg.id, True)})), (dirty, restored, frozenset(f2 | {(tg.id, False)})))
+                p = self._is_pop(v)
+                if p is not None:
                     self.saw_remove = True
-                    if len(v.args) > 1 and is_none(v.args[1]):
-                        return (((("cond", tg.id)), restored),)
-                    return (("dirty", restored),)
-                if isinstance(v, ast.Call) and dotted(v.func) == "_unregister" and norm(v.args[0]) == self.x:
-                    self.saw_remove = True
-                    return (((("condtrue", tg.id)), restored),)
+                    if len(p.args) > 1 and is_none(p.args[1]):
+                        return ((True, restored, frozenset(f2 | {(k_none(tg.id), False), (f"alias:{tg.id}", True)})),
+                                (dirty, restored, frozenset(f2 | {(k_none(tg.id), True)})))
+                    return ((True, restored, frozenset(f2 | {(k_none(tg.id), False), (f"alias:{tg.id}", True)})),)
+                if isinstance(v, ast.Constant) and isinstance(v.value, bool):
+                    return ((dirty, restored, frozenset(f2 | {(tg.id, v.value)})),)
+                if is_none(v):
+                    return ((dirty, restored, frozenset(f2 | {(k_none(tg.id), True)})),)
+                if norm(v) == self.x:
+                    return ((dirty, restored, frozenset(f2 | {(k_none(tg.id), False), (f"alias:{tg.id}", True)})),)
             if isinstance(tg, ast.Subscript) and dotted(tg.value) == REG:
                 k, val = norm(tg.slice), norm(v)
-                cond_var = reg[1] if isinstance(reg, tuple) else None
-                if (k == f"{self.x}.id" and val == self.x) or (cond_var and k == f"{cond_var}.id" and val == cond_var) \
-                        or (reg == "dirty" and k.endswith(".id") and k[:-3] == val):
+                is_x = val == self.x or (f"alias:{val}", True) in facts
+                if k == f"{val}.id" and is_x:
                     self.saw_restore = True
-                    return (("clean", True),)
+                    return ((False, True, frozenset(f2)),)
         if isinstance(st, ast.Expr) and isinstance(st.value, ast.Call):
-            c = st.value
-            if dotted(c.func) == "_unregister" and c.args and norm(c.args[0]) == self.x:
+            if self._is_unreg(st.value) or self._is_pop(st.value) is not None:
                 self.saw_remove = True
-                return (("dirty", restored),)
-            if isinstance(c.func, ast.Attribute) and dotted(c.func.value) == REG and c.func.attr == "pop" and c.args and norm(c.args[0]) == f"{self.x}.id":
-                self.saw_remove = True
-                return (("dirty", restored),)
-        return (state,)
+                return ((True, restored, frozenset(f2)), (dirty, restored, frozenset(f2)))
+        return ((dirty, restored, frozenset(f2)),)
 
     def cond(self, state, test):
-        reg, restored = state
-        if isinstance(reg, tuple):
-            kind, var = reg
-            cj = _conjuncts(test, True)
-            if len(cj) == 1:
-                c, pol = cj[0]
-                if kind == "cond" and isinstance(c, ast.Compare) and len(c.ops) == 1 and isinstance(c.ops[0], (ast.Is, ast.IsNot)) \
-                        and norm(c.left) == var and is_none(c.comparators[0]):
-                    not_none_when_true = isinstance(c.ops[0], ast.IsNot) == pol
-                    t = ("dirty" if not_none_when_true else "clean", restored)
-                    f = ("clean" if not_none_when_true else "dirty", restored)
-                    return (t,), (f,)
-                if kind == "condtrue" and isinstance(c, ast.Name) and c.id == var:
-                    t = ("dirty" if pol else "clean", restored)
-                    f = ("clean" if pol else "dirty", restored)
-                    return (t,), (f,)
-        return (state,), (state,)
+        dirty, restored, facts = state
+        fd = dict(facts)
+        t = test
+        pol = True
+        while isinstance(t, ast.UnaryOp) and isinstance(t.op, ast.Not):
+            t, pol = t.operand, not pol
+        if self._is_unreg(t):
+            self.saw_remove = True
+            a = (True, restored, facts)
+            b = (dirty, restored, facts)
+            return ((a,), (b,)) if pol else ((b,), (a,))
+        key = None
+        val_when_true = None
+        if isinstance(t, ast.Name):
+            key, val_when_true = t.id, True
+        elif isinstance(t, ast.Compare):
+            from ..finite import canon_cmp
+            cc = canon_cmp(t)
+            if cc is not None:
+                key, val_when_true = cc[0], cc[1]
+        if key is None:
+            return (state,), (state,)
+        res = []
+        for branch in (True, False):
+            want = val_when_true if (branch == pol) else (not val_when_true)
+            if key in fd and fd[key] != want:
+                res.append(())
+            else:
+                res.append(((dirty, restored, frozenset(set(facts) | {(key, want)})),))
+        return res[0], res[1]
 
 
 def r_reg_pair(ck: Checker) -> None:
     f = ck.repo.func(NODE, "ASTNode.replace")
     sem = PairSem("self")
-    out = Interp(sem).block(f.node.body, {("clean", False)})
+    out = Interp(sem).block(f.node.body, {(False, False, frozenset())})
     if not sem.saw_remove:
         ck.violation("R-REPLACE-FORM", f, f.node, "ASTNode.replace unregisters the original before constructing the new node",
                      construct="replace: the original is never unregistered")
         return
     what = "ASTNode.replace: every exceptional exit after the original was unregistered passes through the restore of that entry"
-    bad = sorted({str(s[0]) for s in out.exc if s[0] != "clean"})
+    bad = [s_ for s_ in out.exc if s_[0]]
     if bad:
         ck.violation("R-REG-PAIR", f, f.node, what, evaluations=len(out.exc),
-                     construct=f"replace: exceptional exit with the original possibly unregistered (state {bad})")
+                     construct="replace: exceptional exit with the original possibly unregistered (state ['dirty'])")
     elif not out.exc:
         ck.incomplete("R-REG-PAIR", f, f.node, "no exceptional exit found in replace")
     else:
         ck.holds("R-REG-PAIR", f, f.node, what, evaluations=len(out.exc), exits=len(out.exc))
     what = "ASTNode.replace: the success path does not restore the original"
     normal = out.normal | out.ret
-    if any(s[1] for s in normal):
+    if any(s_[1] for s_ in normal):
         ck.violation("R-REG-PAIR", f, f.node, what, construct="replace: the original is restored on the success path")
     elif not normal:
         ck.incomplete("R-REG-PAIR", f, f.node, "no normal exit found in replace")
